@@ -2,12 +2,28 @@
 // (reference leg).
 //
 // The file is one translation unit when compiled plainly, and is compiled in parts (-DC01_PART=k, see pcxx.py) by the
-// check so that the element-type x capacity instantiations build in parallel (11 parts): part 0 holds main(), the parser and the
+// check so that the element-type x capacity instantiations build in parallel (14 parts): part 0 holds main(), the parser and the
 // reference leg, every part holds the flavours listed in its `#if PART(k)` block.
+#if defined(C01_STUB)
+// stand-in for part C01_STUB when that part does not compile against the library under test (pcxx.py): no library header
+// is included; the flavours of the part answer with the compiler's first error instead of values
+    #include "common.hpp"
+    #include "c01_stub_msg.h"   // C01_STUB_MSG, written by pcxx.py
+    #include <vector>
+    #define C01_STUB_FN2(k) c01_part##k
+    #define C01_STUB_FN(k) C01_STUB_FN2(k)
+struct Step;
+int C01_STUB_FN(C01_STUB)(std::string const&, vh::i64, std::vector<Step> const&, vh::Out& impl)
+{
+    impl.tok(C01_STUB_MSG);
+    return -2;
+}
+#else
 #include "common.hpp"
 
 #include <algorithm>
 #include <forward_list>
+#include <initializer_list>
 #include <iterator>
 #include <list>
 #include <memory>
@@ -27,6 +43,9 @@ using namespace vh;
     #define PART(k) (C01_PART == (k))
 #else
     #define PART(k) 1
+#endif
+#if !defined(C01_NPARTS)
+    #define C01_NPARTS 14
 #endif
 
 // ---------------------------------------------------------------------------------------------------------------------
@@ -126,10 +145,48 @@ inline bool operator==(KeyTag const& a, KeyTag const& b) { return a.v == b.v; }
 inline bool operator<(KeyTag const& a, KeyTag const& b) { return kt_key(a.v) < kt_key(b.v); }
 static_assert(std::is_trivial_v<KeyTag>);
 static_assert(!std::is_trivially_copy_constructible_v<NxCopy> && std::is_nothrow_copy_constructible_v<NxCopy>);
+// element types of the usual container shape: a (count, value)-like two-argument constructor NEXT TO an initializer_list
+// constructor, so that  T(a, b)  and  T{a, b}  (and  T(x)  and  T{x})  are different objects.  emplace_back(args...) and
+// its relatives must construct T(args...) ([sequence.reqmts]: allocator_traits::construct = parentheses).
+//   IlN  non-trivial (counted, user copy)  -> static_vector_non_trivial_storage, uninitialized_array byte storage
+//   IlT  trivial                            -> static_vector_trivial_storage (slot = T(args...))
+//   VI   std::vector<int> itself: (2, 7) = {7, 7}, {2, 7} = {2, 7}
+struct IlN {
+    int v{0};
+    IlN() { ++g_live; }
+    IlN(int x) : v{x} { ++g_live; }   // NOLINT
+    IlN(int a, int b) : v{1000 * a + b} { ++g_live; }
+    IlN(std::initializer_list<int> l) : v{-4000} { for (auto e : l) { v -= e; } ++g_live; }
+    IlN(IlN const& o) : v{o.v} { ++g_live; }
+    auto operator=(IlN const& o) -> IlN& { v = o.v; return *this; }
+    ~IlN() { --g_live; }
+    friend bool operator==(IlN const& a, IlN const& b) { return a.v == b.v; }
+    friend bool operator<(IlN const& a, IlN const& b) { return a.v < b.v; }
+};
+struct IlT {
+    int v;
+    IlT() = default;
+    IlT(int x) : v{x} { }   // NOLINT
+    IlT(int a, int b) : v{1000 * a + b} { }
+    IlT(std::initializer_list<int> l) : v{-4000} { for (auto e : l) { v -= e; } }
+    friend bool operator==(IlT const& a, IlT const& b) { return a.v == b.v; }
+    friend bool operator<(IlT const& a, IlT const& b) { return a.v < b.v; }
+};
+static_assert(std::is_trivial_v<IlT> && !std::is_trivially_copyable_v<IlN>);
+using VI = std::vector<int>;
+// T(a, b) exists (the two-argument emplace operations eb2 / em2 / te2 / ue2)
+template <typename T> inline constexpr bool two_arg_v = std::is_same_v<T, IlN> || std::is_same_v<T, IlT> || std::is_same_v<T, VI>;
 
 template <typename T> inline T mk(int v) { return T(v); }
 template <> inline Pod mk<Pod>(int v) { return Pod{v, v * 7}; }
 template <> inline KeyTag mk<KeyTag>(int v) { return KeyTag{v}; }
+// std::vector<int>: 0 = the empty vector (T{}, a moved-from one), v = the one-element vector (v)
+template <> inline VI mk<VI>(int v) { return v == 0 ? VI() : VI(1, v); }
+// arithmetic element types other than int.  long long: code 16 * h + l stands for h * 2^32 + l (elements that differ
+// beyond bit 31, so that a conversion to int loses something); double: the code counts quarters (1.25 = code 5)
+inline i64 floor_div(i64 a, i64 b) { i64 q = a / b; return (a % b != 0 && ((a < 0) != (b < 0))) ? q - 1 : q; }
+template <> inline long long mk<long long>(int v) { i64 h = floor_div(v, 16); return h * 4294967296LL + (v - 16 * h); }
+template <> inline double mk<double>(int v) { return static_cast<double>(v) / 4.0; }
 // std::string: 0 is the empty string (what T{} gives), v > 0 a zero-padded 24-digit string (heap-allocated, and
 // lexicographic order = numeric order)
 template <> inline std::string mk<std::string>(int v)
@@ -146,11 +203,17 @@ inline int get(Pod const& e) { return e.w == e.v * 7 ? e.v : -999; }
 inline int get(KeyTag const& e) { return e.v; }
 inline int get(TdcCopy const& e) { return e.ok() ? e.v : -999; }
 inline int get(std::string const& e) { return e.empty() ? 0 : (e.size() == 24 ? std::stoi(e) : -999); }
-template <typename T> inline constexpr bool counted_v = std::is_same_v<T, Tracked> || std::is_same_v<T, NxCopy> || std::is_same_v<T, MoveOnly>;
+inline int get(IlN const& e) { return e.v; }
+inline int get(IlT const& e) { return e.v; }
+// a vector of n >= 2 elements (only T(a, b) / T{a, b} make one) reads as 1000 * n + front + 7 * back
+inline int get(VI const& e) { return e.empty() ? 0 : (e.size() == 1 ? e[0] : static_cast<int>(1000 * e.size()) + e.front() + 7 * e.back()); }
+inline int get(long long e) { i64 h = floor_div(e, 4294967296LL); i64 l = e - h * 4294967296LL; return l < 16 ? static_cast<int>(16 * h + l) : -999; }
+inline int get(double e) { double q = e * 4.0; return (q == static_cast<double>(static_cast<int>(q))) ? static_cast<int>(q) : -999; }
+template <typename T> inline constexpr bool counted_v = std::is_same_v<T, Tracked> || std::is_same_v<T, NxCopy> || std::is_same_v<T, MoveOnly> || std::is_same_v<T, IlN>;
 // the argument handed to emplace-style members: the int itself where T is constructed from an int
 template <typename T> inline auto mkarg(int v)
 {
-    if constexpr (std::is_same_v<T, int> || counted_v<T> || std::is_same_v<T, TdcCopy>) { return v; } else { return mk<T>(v); }
+    if constexpr (std::is_same_v<T, int> || counted_v<T> || std::is_same_v<T, TdcCopy> || std::is_same_v<T, IlT>) { return v; } else { return mk<T>(v); }
 }
 template <typename T> inline std::vector<T> mkvec(std::vector<i64> const& xs)
 {
@@ -281,6 +344,45 @@ static bool with_range(i64 kind, std::vector<i64> const& xs, Out& o, F&& f)
     return true;
 }
 
+// ---------------------------------------------------------------------------------------------------------------------
+// values of ANOTHER arithmetic type than the element type (etl::erase(c, value) takes any U; a predicate may take any
+// parameter type).  with_value(k, x, f) calls f with the number x held in type number k (doubles: x quarters):
+//   1 unsigned char  2 signed char  3 short  4 unsigned  5 long long  6 double  7 int  8 unsigned long long  9 unsigned short
+// 0 = the element type itself (self_kind)
+template <typename T> inline constexpr i64 self_kind = std::is_same_v<T, long long> ? 5 : std::is_same_v<T, double> ? 6 : 7;
+template <typename F>
+static bool with_value(i64 k, i64 x, F&& f)
+{
+    switch (k) {
+    case 1: f(static_cast<unsigned char>(x)); return true;
+    case 2: f(static_cast<signed char>(x)); return true;
+    case 3: f(static_cast<short>(x)); return true;
+    case 4: f(static_cast<unsigned>(x)); return true;
+    case 5: f(static_cast<long long>(x)); return true;
+    case 6: f(static_cast<double>(x) / 4.0); return true;
+    case 7: f(static_cast<int>(x)); return true;
+    case 8: f(static_cast<unsigned long long>(x)); return true;
+    case 9: f(static_cast<unsigned short>(x)); return true;
+    default: return false;
+    }
+}
+// the number a value holds, in the units of the model (doubles: quarters)
+template <typename U> inline i64 num_of(U e) { if constexpr (std::is_floating_point_v<U>) { return static_cast<i64>(e * 4.0); } else { return static_cast<i64>(e); } }
+static bool pred_of64(int id, i64 v);
+// the number an element of an arithmetic flavour holds (the model's dec_*): what  item == value  compares
+inline i64 held(int e) { return e; }
+inline i64 held(long long e) { return e; }
+inline i64 held(double e) { return static_cast<i64>(e * 4.0); }
+
+// the slot of the container that p points to, -1 when p points elsewhere (e.g. to a copy of an element)
+template <typename C, typename T>
+static i64 slot_of(C const& c, T const* p)
+{
+    for (std::size_t k = 0; k < c.size(); ++k) { if (c.data() + k == p) { return static_cast<i64>(k); } }
+    return -1;
+}
+inline constexpr int k_probe = 77777;   // written through a returned reference, then put back
+
 struct Step {
     std::string op;
     int t{0};
@@ -346,10 +448,42 @@ static void sv_step(Step const& s, Vec (&v)[2], Out& o)
     else if (op == "eb") { x.emplace_back(mkarg<T>(static_cast<int>(A(0)))); }
     else if (op == "ebr") {
         // emplace_back returns a reference to the new element (std::vector since C++17)
-        auto& r = x.emplace_back(mkarg<T>(static_cast<int>(A(0))));
-        static_assert(std::is_same_v<decltype(x.emplace_back(mkarg<T>(0))), T&>);
-        o.num(&r - x.data()).num(get(r));
+        // (std::vector since C++17): its address is a slot of the vector, writing through it changes back()
+        auto&& r = x.emplace_back(mkarg<T>(static_cast<int>(A(0))));
+        if constexpr (!std::is_same_v<decltype(x.emplace_back(mkarg<T>(0))), T&>) { o.tok("returns-no-reference"); }
+        o.num(slot_of(x, &r)).num(get(r));
         if (&r != &x.back()) { o.tok("bad-ref"); }
+        r = mk<T>(k_probe);
+        if (get(x.back()) != k_probe) { o.tok("write-through-lost"); }
+        x.back() = val(0);
+    }
+    // two arguments: the new element is T(a, b) - parentheses, also when T has an initializer_list constructor
+    else if (op == "eb2") {
+        if constexpr (two_arg_v<T>) {
+            auto&& r = x.emplace_back(static_cast<int>(A(0)), static_cast<int>(A(1)));
+            o.num(slot_of(x, &r)).num(get(r));
+            if (&r != &x.back()) { o.tok("bad-ref"); }
+        } else { unsupported(); }
+    }
+    else if (op == "em2") {
+        if constexpr (two_arg_v<T>) { o.num(x.emplace(at_off(x.begin(), A(0)), static_cast<int>(A(1)), static_cast<int>(A(2))) - x.begin()); }
+        else { unsupported(); }
+    }
+    // a value / a predicate parameter of ANOTHER arithmetic type than the elements: std::erase compares  elem == value
+    // as they are, std::erase_if hands the element to the predicate (which converts it if its parameter says so)
+    else if (op == "erh") {
+        if constexpr (std::is_arithmetic_v<T>) {
+            if (!with_value(A(0) == 0 ? self_kind<T> : A(0), A(1), [&](auto value) { o.num(static_cast<i64>(etl::erase(x, value))); })) { unsupported(); }
+        } else { unsupported(); }
+    }
+    else if (op == "eih") {
+        if constexpr (std::is_arithmetic_v<T>) {
+            auto id = static_cast<int>(A(1));
+            if (!with_value(A(0) == 0 ? self_kind<T> : A(0), 0, [&](auto dummy) {
+                    using U = decltype(dummy);
+                    o.num(static_cast<i64>(etl::erase_if(x, [&](U e) { return pred_of64(id, num_of(e)); })));
+                })) { unsupported(); }
+        } else { unsupported(); }
     }
     // the argument is an element of the vector itself (std::vector must accept that for these five members)
     else if (op == "pba") { if constexpr (copyable) { x.push_back(x[static_cast<std::size_t>(A(0))]); } else { unsupported(); } }
@@ -470,10 +604,22 @@ static void st_step(Step const& s, St (&v)[2], Out& o)
     else if (op == "eb") { x.emplace(mkarg<T>(static_cast<int>(A(0)))); }
     else if (op == "ebr") {
         // std::stack::emplace returns what c.emplace_back returns: a reference to the new top
-        decltype(auto) r = x.emplace(mkarg<T>(static_cast<int>(A(0))));
-        static_assert(std::is_same_v<decltype(r), T&>);
-        o.num(&r - x.cont().data()).num(get(r));
+        // (the lifetime of a returned COPY is extended by auto&&, so every check below is defined either way)
+        auto&& r = x.emplace(mkarg<T>(static_cast<int>(A(0))));
+        if constexpr (!std::is_same_v<decltype(x.emplace(mkarg<T>(0))), T&>) { o.tok("returns-no-reference"); }
+        o.num(slot_of(x.cont(), &r)).num(get(r));
         if (&r != &x.top()) { o.tok("bad-ref"); }
+        r = mk<T>(k_probe);   // writing through the reference changes top() ...
+        if (get(x.top()) != k_probe) { o.tok("write-through-lost"); }
+        x.top() = val(0);     // ... and is put back
+    }
+    else if (op == "eb2") {
+        if constexpr (two_arg_v<T>) {
+            auto&& r = x.emplace(static_cast<int>(A(0)), static_cast<int>(A(1)));
+            if constexpr (!std::is_same_v<decltype(x.emplace(1, 2)), T&>) { o.tok("returns-no-reference"); }
+            o.num(slot_of(x.cont(), &r)).num(get(r));
+            if (&r != &x.top()) { o.tok("bad-ref"); }
+        } else { unsupported(); }
     }
     else if (op == "pop") { x.pop(); }
     else if (op == "bk") { o.num(get(x.top())); if (&cx.top() != &x.top()) { o.tok("const-mismatch"); } }
@@ -531,14 +677,35 @@ static void iv_step(Step const& s, Vec* (&v)[2], Out& o)
         }
         o.num(cnt);
     }
-    else if (op == "tem") { auto w = static_cast<int>(A(0)); ptr(x.try_emplace_back(mkarg<T>(w)), w); }
+    else if (op == "tem") {
+        auto w = static_cast<int>(A(0));
+        T* p = x.try_emplace_back(mkarg<T>(w));
+        ptr(p, w);
+        if (p != nullptr) { *p = mk<T>(k_probe); if (get(x.back()) != k_probe) { o.tok("write-through-lost"); } x.back() = val(0); }
+    }
+    else if (op == "te2") {
+        if constexpr (two_arg_v<T>) { T* p = x.try_emplace_back(static_cast<int>(A(0)), static_cast<int>(A(1))); o.b(p != nullptr); if (p != nullptr && p != &x.back()) { o.tok("bad-ptr"); } }
+        else { unsupported(); }
+    }
+    else if (op == "ue2") {
+        if constexpr (two_arg_v<T>) { auto&& r = x.unchecked_emplace_back(static_cast<int>(A(0)), static_cast<int>(A(1))); if (&r != &x.back()) { o.tok("bad-ref"); } }
+        else { unsupported(); }
+    }
     else if (op == "tpr") { auto w = static_cast<int>(A(0)); ptr(x.try_push_back(val(0)), w); }
     else if (op == "upb") {
         auto w = static_cast<int>(A(0));
         if constexpr (copyable) { if (w % 2 == 0) { T c = val(0); ref(x.unchecked_push_back(c), w); } else { ref(x.unchecked_emplace_back(mkarg<T>(w)), w); } }
         else { ref(x.unchecked_emplace_back(mkarg<T>(w)), w); }
     }
-    else if (op == "uem") { auto w = static_cast<int>(A(0)); ref(x.unchecked_emplace_back(mkarg<T>(w)), w); }
+    else if (op == "uem") {
+        auto w = static_cast<int>(A(0));
+        auto&& r = x.unchecked_emplace_back(mkarg<T>(w));
+        if constexpr (!std::is_same_v<decltype(x.unchecked_emplace_back(mkarg<T>(0))), T&>) { o.tok("returns-no-reference"); }
+        ref(r, w);
+        r = mk<T>(k_probe);
+        if (get(x.back()) != k_probe) { o.tok("write-through-lost"); }
+        x.back() = val(0);
+    }
     else if (op == "upr") { auto w = static_cast<int>(A(0)); ref(x.unchecked_push_back(val(0)), w); }
     else if (op == "pop") { x.pop_back(); }
     else if (op == "clr") { x.clear(); }
@@ -647,7 +814,8 @@ static bool with_caps(i64 cap, F&& f)
     return hit;
 }
 
-static bool pred_of(int id, int v)
+static bool pred_of(int id, int v) { return pred_of64(id, v); }
+static bool pred_of64(int id, i64 v)
 {
     auto key = v >= 0 ? v / 16 : -((-v + 15) / 16);
     switch (id) {
@@ -676,6 +844,9 @@ int c01_part7(std::string const& fl, i64 cap, Steps const& steps, Out& impl);
 int c01_part8(std::string const& fl, i64 cap, Steps const& steps, Out& impl);
 int c01_part9(std::string const& fl, i64 cap, Steps const& steps, Out& impl);
 int c01_part10(std::string const& fl, i64 cap, Steps const& steps, Out& impl);
+int c01_part11(std::string const& fl, i64 cap, Steps const& steps, Out& impl);
+int c01_part12(std::string const& fl, i64 cap, Steps const& steps, Out& impl);
+int c01_part13(std::string const& fl, i64 cap, Steps const& steps, Out& impl);
 
 #if PART(0)
 int c01_part0(std::string const& fl, i64 cap, Steps const& steps, Out& impl)
@@ -774,6 +945,38 @@ int c01_part10(std::string const& fl, i64 cap, Steps const& steps, Out& impl)
 }
 #endif
 
+// element types with an initializer_list constructor next to a two-argument one: emplace_back(a, b) etc. must give T(a, b)
+#if PART(11)
+int c01_part11(std::string const& fl, i64 cap, Steps const& steps, Out& impl)
+{
+    if (fl == "sv_vi") { return MK_SV(VI, 3, 4); }
+    if (fl == "st_vi") { return MK_ST(VI, 3); }
+    if (fl == "iv_vi") { return MK_IV(VI, 3); }
+    return -1;
+}
+#endif
+#if PART(12)
+int c01_part12(std::string const& fl, i64 cap, Steps const& steps, Out& impl)
+{
+    if (fl == "sv_iln") { return MK_SV(IlN, 3); }
+    if (fl == "st_iln") { return MK_ST(IlN, 3); }
+    if (fl == "iv_iln") { return MK_IV(IlN, 3); }
+    if (fl == "sv_ilt") { return MK_SV(IlT, 3); }
+    if (fl == "st_ilt") { return MK_ST(IlT, 3); }
+    if (fl == "iv_ilt") { return MK_IV(IlT, 3); }
+    return -1;
+}
+#endif
+// arithmetic element types other than int: etl::erase / erase_if with a value / predicate parameter of another type
+#if PART(13)
+int c01_part13(std::string const& fl, i64 cap, Steps const& steps, Out& impl)
+{
+    if (fl == "sv_ll") { return MK_SV(long long, 3, 8); }
+    if (fl == "sv_dbl") { return MK_SV(double, 3, 8); }
+    return -1;
+}
+#endif
+
 #if PART(0)
 // ---------------------------------------------------------------------------------------------------------------------
 static std::vector<Step> parse(Toks& in)
@@ -789,8 +992,8 @@ static std::vector<Step> parse(Toks& in)
         else {
             s.t = static_cast<int>(in.num());
             if (is({"pb", "pbr", "eb", "ebr", "pba", "eba", "era", "rsz", "eif", "erv", "at", "tpb", "upb", "tem", "tpr", "uem", "upr", "rit", "sfr", "sbk", "ctn"})) { need(1); }
-            else if (is({"icr", "irv", "emp", "err", "rsv", "asn", "sat", "ctv", "cpi", "fil", "ica", "rva"})) { need(2); }
-            else if (is({"inn", "ina"})) { need(3); }
+            else if (is({"icr", "irv", "emp", "err", "rsv", "asn", "sat", "ctv", "cpi", "fil", "ica", "rva", "erh", "eih", "eb2", "te2", "ue2"})) { need(2); }
+            else if (is({"inn", "ina", "em2"})) { need(3); }
             else if (is({"irg", "mir"})) { need(1); s.xs = in.list(); }
             else if (is({"irk", "mik"})) { need(2); s.xs = in.list(); }     // kind, position, range
             else if (is({"ask", "ctk"})) { need(1); s.xs = in.list(); }     // kind, range
@@ -893,6 +1096,47 @@ static void std_relations(Out& o, RV const& a, RV const& b, bool as_stack)
     else { six_relations(o, a, b); }
 }
 
+// ---- reference: what the ARGUMENT types matter for, again computed with the flavour's own element type T:
+//   * std::erase(std::vector<T>&, U) / std::erase_if(std::vector<T>&, pred taking U) for a value / parameter type U != T,
+//   * the element std::vector<T>::emplace_back(a, b) constructs (allocator_traits::construct: T(a, b)).
+template <typename T>
+static i64 std_erase_het_t(RV& codes, bool is_if, i64 k, i64 arg)
+{
+    std::vector<T> tmp;
+    for (auto c : codes) { tmp.push_back(mk<T>(c)); }
+    i64 r = -1;
+    if (!with_value(k == 0 ? self_kind<T> : k, is_if ? 0 : arg, [&](auto value) {
+            using U = decltype(value);
+            if (is_if) { auto id = static_cast<int>(arg); r = static_cast<i64>(std::erase_if(tmp, [&](U e) { return pred_of64(id, num_of(e)); })); }
+            else { r = static_cast<i64>(std::erase(tmp, value)); }
+        })) { return -1; }
+    codes.clear();
+    for (auto const& e : tmp) { codes.push_back(get(e)); }
+    return r;
+}
+static i64 std_erase_het(RV& codes, bool is_if, i64 k, i64 arg)
+{
+    if (g_elem == "int") { return std_erase_het_t<int>(codes, is_if, k, arg); }
+    if (g_elem == "ll") { return std_erase_het_t<long long>(codes, is_if, k, arg); }
+    if (g_elem == "dbl") { return std_erase_het_t<double>(codes, is_if, k, arg); }
+    return -1;
+}
+template <typename T>
+static int std_ctor2_t(int a, int b)
+{
+    std::vector<T> tmp;
+    tmp.emplace_back(a, b);
+    return get(tmp.back());
+}
+// false: the flavour's element type has no T(a, b)
+static bool std_ctor2(int a, int b, int& code)
+{
+    if (g_elem == "vi") { code = std_ctor2_t<VI>(a, b); return true; }
+    if (g_elem == "iln") { code = std_ctor2_t<IlN>(a, b); return true; }
+    if (g_elem == "ilt") { code = std_ctor2_t<IlT>(a, b); return true; }
+    return false;
+}
+
 // ---- reference: std::vector with the documented preconditions; false = outside the domain
 static bool std_step(Step const& s, RV (&v)[2], std::size_t cap, Out& o)
 {
@@ -906,6 +1150,27 @@ static bool std_step(Step const& s, RV (&v)[2], std::size_t cap, Out& o)
     auto I = [&](int i) { return static_cast<int>(s.a[static_cast<std::size_t>(i)]); };
     if (op == "pb" || op == "eb" || op == "upb" || op == "uem" || op == "upr") { if (room < 1) { return false; } x.push_back(I(0)); }
     else if (op == "ebr") { if (room < 1) { return false; } auto& r = x.emplace_back(I(0)); o.num(&r - x.data()).num(r); }
+    else if (op == "eb2" || op == "ue2") {
+        int code = 0;
+        if (room < 1 || !std_ctor2(I(0), I(1), code)) { return false; }
+        auto& r = x.emplace_back(code);
+        if (op == "eb2") { o.num(&r - x.data()).num(r); }
+    }
+    else if (op == "te2") {
+        int code = 0;
+        if (!std_ctor2(I(0), I(1), code)) { return false; }
+        if (room < 1) { o.b(false); } else { x.push_back(code); o.b(true); }
+    }
+    else if (op == "em2") {
+        int code = 0;
+        if (A(0) < 0 || A(0) > sz || room < 1 || !std_ctor2(I(1), I(2), code)) { return false; }
+        { auto it = x.insert(x.begin() + A(0), code); o.num(it - x.begin()); }
+    }
+    else if (op == "erh" || op == "eih") {
+        auto r = std_erase_het(x, op == "eih", A(0), A(1));
+        if (r < 0) { return false; }
+        o.num(r);
+    }
     else if (op == "pba") { if (A(0) < 0 || A(0) >= sz || room < 1) { return false; } x.push_back(x[static_cast<std::size_t>(A(0))]); }
     else if (op == "eba") { if (A(0) < 0 || A(0) >= sz || room < 1) { return false; } x.emplace_back(x[static_cast<std::size_t>(A(0))]); }
     else if (op == "ica") {
@@ -1013,6 +1278,11 @@ static bool std_stack_step(Step const& s, RefStack (&v)[2], std::size_t cap, Out
     else if (op == "pbr") { if (room < 1) { return false; } x.push(I(0)); }
     else if (op == "eb") { if (room < 1) { return false; } x.emplace(I(0)); }
     else if (op == "ebr") { if (room < 1) { return false; } decltype(auto) r = x.emplace(I(0)); o.num(&r - x.cont().data()).num(r); }
+    else if (op == "eb2") {
+        int code = 0;
+        if (room < 1 || !std_ctor2(I(0), I(1), code)) { return false; }
+        decltype(auto) r = x.emplace(code); o.num(&r - x.cont().data()).num(r);
+    }
     else if (op == "pop") { if (sz == 0) { return false; } x.pop(); }
     else if (op == "bk") { if (sz == 0) { return false; } o.num(x.top()); }
     else if (op == "sbk") { if (sz == 0) { return false; } x.top() = I(0); }
@@ -1039,11 +1309,19 @@ bool vh::run_case(std::string const& op, Toks& in, Out& impl, Out& ref)
     auto steps   = parse(in);
     int r        = -1;
     using part_fn = int (*)(std::string const&, i64, Steps const&, Out&);
-    for (part_fn f : {c01_part0, c01_part1, c01_part2, c01_part3, c01_part4, c01_part5, c01_part6, c01_part7, c01_part8, c01_part9, c01_part10}) {
-        r = f(flavour, cap, steps, impl);
-        if (r != -1) { break; }
+    // a part that did not compile against the library under test is replaced by a stub (pcxx.py) that answers -2 and
+    // says why: its flavours then report `harness-does-not-compile ...` instead of values - a broken BUILD is told apart
+    // from a wrong VALUE, and the other flavours still run
+    bool stubbed = false;
+    Out why;
+    for (part_fn f : {c01_part0, c01_part1, c01_part2, c01_part3, c01_part4, c01_part5, c01_part6, c01_part7, c01_part8, c01_part9, c01_part10,
+                      c01_part11, c01_part12, c01_part13}) {
+        Out tmp;
+        r = f(flavour, cap, steps, tmp);
+        if (r == -2) { stubbed = true; if (why.s.empty()) { why = tmp; } r = -1; continue; }
+        if (r != -1) { impl = tmp; break; }
     }
-    if (r == -1) { impl.tok("bad-instantiation"); return true; }
+    if (r == -1) { impl.tok(stubbed ? why.s : std::string("bad-instantiation")); if (!stubbed) { return true; } }
     {
         auto us = flavour.find('_');
         g_elem  = (us == std::string::npos || flavour == "stack") ? std::string("int") : flavour.substr(us + 1);
@@ -1077,3 +1355,4 @@ bool vh::run_case(std::string const& op, Toks& in, Out& impl, Out& ref)
 
 VERIF_MAIN()
 #endif
+#endif   // C01_STUB
